@@ -667,6 +667,10 @@ func (ni *NodeInfo) getResourceGpuPortion(res *resource_info.ResourceRequirement
 
 func (ni *NodeInfo) isValidGpuPortion(res *resource_info.ResourceRequirements) bool {
 	gpuPortion := ni.getResourceGpuPortion(res)
+	if res.GpuMemory() > 0 {
+		// a gpu-memory request is served by single devices: it has to fit into one of them
+		return gpuPortion <= 1
+	}
 	return gpuPortion <= 1 || gpuPortion == float64(int(gpuPortion))
 }
 
